@@ -10,6 +10,7 @@ CONFIGS = [
     ("std-maf-nlive50", "std", {"nlive": 50, "flow_config": {"ftype": "maf"}}),
     ("std-logit-nball", "std", {"reparameterisations": {"x0": "logit", "x1": "logit"}, "latent_prior": "uniform_nball"}),
     ("std-analytic-uninformed50", "std", {"analytic_priors": True, "maximum_uninformed": 50}),
+    ("std-training-options-inside-flow-config", "std", {"nlive": 50, "flow_config": {"max_epochs": 12, "patience": 4, "lr": 0.002}, "training_config": None}),
     ("ins-default", "ins", {}),
     ("ins-strict-variable", "ins", {"strict_threshold": True, "draw_constant": False}),
     ("std-seed-0", "std", {"seed": 0, "nlive": 50}),     # boundary value of the seed: 0 is a seed, not "no seed"
@@ -29,6 +30,7 @@ VARIANTS = [
     ("hashseed-random", {"hashseed": "random"}),
     ("twice-in-one-process", {"twice": True}),
     ("twice-in-one-process-same-model-object", {"twice": True, "same_model": True}),
+    ("twice-in-one-process-same-settings-objects", {"twice": True, "same_kwargs": True}),
     ("n_pool-1", {"n_pool": 1}),
     ("n_pool-2", {"n_pool": 2, "delay_us": 300}),
     ("n_pool-3", {"n_pool": 3}),
@@ -66,8 +68,8 @@ def main():
     assert_repo()
     from vlib.farm import run_cases
 
-    nconf = 8 if chk.quick else len(CONFIGS)
-    quick_names = ["baseline", "other-process-other-hashseed", "hashseed-1", "hashseed-2", "hashseed-random", "twice-in-one-process", "twice-in-one-process-same-model-object",
+    nconf = 9 if chk.quick else len(CONFIGS)
+    quick_names = ["baseline", "other-process-other-hashseed", "hashseed-1", "hashseed-2", "hashseed-random", "twice-in-one-process", "twice-in-one-process-same-model-object", "twice-in-one-process-same-settings-objects",
                    "n_pool-2", "n_pool-4", "user-pool-2", "chunksize-7", "parallel-prior", "pool-chunks"]
     variants = [v for v in VARIANTS if v[0] in quick_names] if chk.quick else VARIANTS
     seeds = [0] if chk.quick else [0, 1, 2]
